@@ -20,6 +20,16 @@ from cherab.openadas import repository as R  # noqa: E402
 from cherab.openadas.repository import utility as RU  # noqa: E402
 from . import c08 as ADF  # noqa: E402  (independent ADF writers + install helpers; its own HOME redirection is harmless here)
 
+
+def _install_adf11(cls, el, rel, adas, repo, via):
+    """install_adf11<cls> directly, or through the batch front-end install_files (which repository.populate() uses)."""
+    from cherab.openadas import install as I
+    from cherab.core.atomic import elements as E
+    args = (E.hydrogen, 0, el, rel) if cls == "ccd" else (el, rel)
+    if via == "files":
+        return ADF._quiet(I.install_files, {"adf11" + cls: (args,)}, download=False, repository_path=repo, adas_path=adas)
+    return ADF._quiet(getattr(I, "install_adf11" + cls), *args, download=False, repository_path=repo, adas_path=adas)
+
 ID = "C06"
 RULE = ("Hypothesis RuleBasedStateMachine over a fresh temporary repository: rules are every add_*/update_* function of "
         "the 14 rate families (update_* batched over several keys), the six install_adf11* front-ends and install_adf15 fed by independent ADF writers, rejected updates (bad shape / charge > Z / non-Element "
@@ -31,7 +41,7 @@ RULE = ("Hypothesis RuleBasedStateMachine over a fresh temporary repository: rul
 ASSUMPTIONS = ["ADF11-style families take the table under the key 'rates' (what install.py passes), all others 'rate'",
                "finite float64 values only (no NaN/inf): JSON round trip of NaN is outside the stated property",
                "HOME redirection before import captures every write that ignores repository_path"]
-REQUIRED_LABELS = ["machine:overwrite", "machine:same-file-siblings", "machine:rejected", "machine:w:install11:scd", "machine:w:install11:ccd", "machine:install15"]
+REQUIRED_LABELS = ["machine:overwrite", "machine:same-file-siblings", "machine:rejected", "machine:w:install11:scd", "machine:w:install11:ccd", "machine:install11:via-files", "machine:reject:content-into-existing-file", "machine:install15"]
 
 SPECIES = ["hydrogen", "deuterium", "tritium", "helium", "helium3", "carbon", "neon", "argon"]
 SP = {n: getattr(E, n) for n in SPECIES}
@@ -457,7 +467,8 @@ class Repo:
                                              st.lists(st.tuples(st.integers(0, 2), _sp, st.integers(0, 18), _tr, beam_data()), min_size=1, max_size=3))
 
     # ---- ADF11 install front-ends (file produced by the independent writer of vf/oracles/adf_writers.py)
-    def do_install11(self, case):
+    def do_install11(self, arg):
+        case, via = arg
         cls = case["cls"]
         fam, off = INSTALL11[cls]
         el = ADF.EL[case["el"]]
@@ -470,7 +481,7 @@ class Repo:
             with open(path, "w") as f:
                 f.write(text)
             with self.ctx.cut("install_adf11" + cls):
-                ADF._install_adf11(case, el, rel, adas, self.path)
+                _install_adf11(cls, el, rel, adas, self.path, via)
         finally:
             shutil.rmtree(adas, ignore_errors=True)
         want_ne = ADF._pow10(ADF._vals(d["dens"])) * 1e6
@@ -490,9 +501,10 @@ class Repo:
                 self.ctx.close(got[k], w, "install:" + cls + ":" + k, rtol=1e-12, info="(key %r)" % (key,))
             # ... and from now on it is ordinary repository content that must persist bit for bit
             self._store(key, relf, {k: np.array(got[k], dtype=np.float64) for k in want})
-        self.ctx.label("w:install11:" + cls)
+        self.ctx.label("w:install11:" + cls, "install11:via-" + via)
 
-    OPS["install11"] = lambda: ADF.adf11_cases().filter(lambda c: c["nd"] * c["nt"] * c["nblk"] <= 400)
+    OPS["install11"] = lambda: st.tuples(ADF.adf11_cases().filter(lambda c: c["nd"] * c["nt"] * c["nblk"] <= 400),
+                                         st.sampled_from(["direct", "direct", "files"]))
 
     # ---- ADF15 install front-end: excitation / recombination / thermal-CX PECs and wavelengths from one file
     def do_install15(self, case):
@@ -552,6 +564,13 @@ class Repo:
         bad = why
         if bad == "charge":
             q = sp.atomic_number + 1 + (seed % 3)
+        # invalid *content* (shape / dimensions / non-numeric value) is aimed, two times out of three, at a species and charge whose
+        # file already holds data of this family: the refused update must not have touched that file
+        stored = sorted(k for k in self.model if k[0] == fam) if (fam in F_ADF11 or fam in F_PEC) else []
+        if bad in ("shape", "ndim") and stored and seed % 3:
+            k = stored[seed % len(stored)]
+            sp, q = ALL_BY_SYMBOL[k[1]], k[2]
+            self.ctx.label("reject:content-into-existing-file")
         species = "H" if bad == "species" else sp
         shape_bad = bad == "shape"
         ndim_bad = bad == "ndim"
@@ -575,9 +594,25 @@ class Repo:
             rate = {"ne": good2["ne"], "te": good2["te"], "rate": [[1.0, 2.0, 3.0], [4.0, 5.0, 6.0]]}
             self.ctx.raises(exc, "reject:update_pec_rates", R.update_pec_rates, {"thermal": {sp: {_charge(spi, c): {tr: rate}}}}, p)
         elif fam == "wavelength":
-            if bad in ("shape", "ndim"):
-                q = sp.atomic_number + 1
-            self.ctx.raises(exc, "reject:add_wavelength", R.add_wavelength, species, q, tr, 500.0, p)
+            stored = sorted(k for k in self.model if k[0] == "wavelength")
+            if bad in ("shape", "ndim") and stored:
+                # valid species and charge whose file already holds wavelengths; the *content* is invalid: a wavelength that is
+                # not a number, or a transition that is not a pair (both certain to be refused: float('abc'), unpacking)
+                k = stored[seed % len(stored)]
+                species, q = ALL_BY_SYMBOL[k[1]], k[2]
+                bad = "value" if bad == "shape" else "transition"
+                wl_bad, tr_bad = ("abc", tr) if bad == "value" else (500.0, (tr[0], tr[1], 1))
+                if seed % 2:
+                    # batched: a valid entry of the same file first, then the invalid one
+                    self.ctx.raises((Exception,), "reject:update_wavelengths", R.update_wavelengths,
+                                    {species: {q: {tr: 432.1 + seed, tr_bad: wl_bad} if bad == "transition" else {tr_bad: wl_bad}}}, p)
+                else:
+                    self.ctx.raises((Exception,), "reject:add_wavelength", R.add_wavelength, species, q, tr_bad, wl_bad, p)
+                self.ctx.label("reject:content-into-existing-file")
+            else:
+                if bad in ("shape", "ndim"):
+                    q = sp.atomic_number + 1
+                self.ctx.raises(exc, "reject:add_wavelength", R.add_wavelength, species, q, tr, 500.0, p)
         elif fam in ("beam_stopping", "beam_emission", "beam_population"):
             sen = [[1.0, 2.0], [3.0, 4.0]] if not shape_bad else [[1.0, 2.0, 3.0]]
             rate = {"e": [1.0, 2.0] if not ndim_bad else [[1.0, 2.0]], "n": [1.0, 2.0], "t": [1.0], "sen": sen, "st": [1.0],
@@ -764,5 +799,5 @@ def _brief(x):
 
 
 SUBCHECKS = {
-    "machine": Machine(Repo, quick=160, thorough=6000, steps=(25, 30)),
+    "machine": Machine(Repo, quick=480, thorough=6000, steps=(25, 30)),
 }
